@@ -1,6 +1,6 @@
 import SvModel.Core.Pp
 import SvModel.Lemmas.Walker
-import SvModel.Lemmas.SkipInv
+import SvModel.Lemmas.SkipChain
 /-!
 # C04 — conditional compilation selects exactly the IEEE 22.6 branch (decision logic)
 
@@ -209,5 +209,37 @@ theorem C04_arms_list_only_their_subtree (C : Cfg) (recI) (recU) (inp : Input) (
 
 /-- non-vacuity of the membership test: a node is found on a list that holds an equal node built separately -/
 example : ([Tree.node 7 [.leaf 3 2 1], .leaf 9 1 1] : List Tree).contains (.node 7 [.leaf 3 2 1]) = true := by decide
+
+
+/-! ### the chaining induction: the hypothesis of `C04_dead_branch_inert` holds wherever the walker meets a listed sub-tree -/
+
+/-- **Whenever a run of the event loop meets a node that is on the skip list while it is not skipping — a dead branch, a directive keyword,
+    a macro name — none of that node's proper descendants is on the list**, i.e. the hypothesis of `C04_dead_branch_inert` holds at that
+    moment, so the whole sub-tree is passed without any effect whatever it contains. `safeWalk` follows `walk` event by event (same states,
+    same callees) and asserts exactly this at every `Enter`. Proved for every forest whose tokens are pairwise different (every parse:
+    `C04_tiled_leaves_distinct`), every configuration, input, flags and fuel, from any non-skipping start state with an empty skip list — by
+    mutual induction over trees and forests (`Lemmas/SkipChain.lean: tree_safe / forest_safe`), using `C04_arm_lists_children`, the frame of all
+    arms and `C04_subtrees_of_siblings_differ`. Hypotheses on the forest (`GoodNode`): no `` `include `` node whose arm would run (none present,
+    or `ignore_include`) — that arm deliberately lists the keyword inside the listed directive — and `` `define `` / usage / `__FILE__` nodes
+    carry a token. -/
+theorem C04_dead_subtrees_reached_clean (C : Cfg) (inp : Input) (s path : Bytes) (ii sc : Bool) (rd id : Nat)
+    (ts : List Tree) (hnd : (leavesL ts).Nodup) (hgood : ∀ d ∈ preL ts, GoodNode C ii d)
+    (w0 : WState) (h0 : w0.skip = false) (he : w0.skipNodes = []) (fuel : Nat) :
+    safeWalk C (fuel + (eventsL ts).length) inp s path ii sc rd id (eventsL ts ++ []) w0 := by
+  refine forest_safe C inp s path ii sc rd id ts w0 [] fuel h0 hnd (by intro n hn; rw [he] at hn; cases hn)
+    (by intro d _ hd; rw [he] at hd; cases hd) hgood ?_
+  intro w1 _ _ _
+  cases fuel <;> simp [safeWalk]
+
+/-- the same for a tiled forest as `preprocess_str` walks it: start state of the event loop (empty skip list, not skipping) -/
+theorem C04_dead_subtrees_reached_clean_tiled (C : Cfg) (inp : Input) (s path : Bytes) (ii sc : Bool) (rd id : Nat)
+    (ts : List Tree) (p q : Nat) (htile : Chain inp p (leavesL ts) q) (hgood : ∀ d ∈ preL ts, GoodNode C ii d) (d1 : Defines) (fuel : Nat) :
+    safeWalk C (fuel + (eventsL ts).length) inp s path ii sc rd id (eventsL ts ++ []) { defines := d1 } :=
+  C04_dead_subtrees_reached_clean C inp s path ii sc rd id ts (chain_nodup _ p q htile) hgood { defines := d1 } rfl rfl fuel
+
+/-- non-vacuity of `GoodNode` and of the tiling hypothesis: a two-token text forest -/
+example (C : Cfg) (inp : Input) (h : inp.size = 3) :
+    Chain inp 0 (leavesL [Tree.node 5 [.leaf 0 1 (lineAt inp 0)], .node 5 [.leaf 1 2 (lineAt inp 1)]]) 3 := by
+  simp [leavesL, leaves, Chain, h]
 
 end Sv
